@@ -75,9 +75,16 @@ Detected(e) ==
   /\ HonestRejects(e) # {}
   /\ e.kind = "u" => \E k \in HonestRejects(e) : e.rejects[k].party = e.to     \* the addressee itself
   /\ e.rejects # <<>> => \A i \in SeqSet(e.completed) : TRUE
+\* When the deviator is the party the others were configured to TRUST (the redistribution anchor, whose copy of the previous public
+\* data is the reference of the next-only holders by design), output validity and detection are not owed, and a next-only holder
+\* that measures the honest senders against the anchor's false reference may blame one of them (that IS the trust assumption).
+\* But nobody may crash or hang, and a holder of the previous epoch, which has its own reference, must still blame only the anchor.
+BlameByPrevOnlyDeviator(e) ==
+  \A k \in HonestRejects(e) : e.rejects[k].party \in SeqSet(e.prev) => SeqSet(e.rejects[k].blamed) \subseteq {e.from}
 TamperOK(e) ==
   /\ NoCrashNoHang(e)
-  /\ BlameOnlyDeviator(e)
-  /\ OutputsValid(e)
-  /\ (e.changed /\ Bound(e.proto, e.round, e.kind, e.leaf, e.senderIsPrev, e.idx)) => Detected(e)
+  /\ IF e.fromTrusted THEN BlameByPrevOnlyDeviator(e)
+     ELSE /\ BlameOnlyDeviator(e)
+          /\ OutputsValid(e)
+          /\ (e.changed /\ Bound(e.proto, e.round, e.kind, e.leaf, e.senderIsPrev, e.idx)) => Detected(e)
 =============================================================================
